@@ -20,6 +20,7 @@ func checkC11(c *Ctx, r *Report) {
 	c11b(c, r)
 	c11c(c, r, st)
 	c11d(c, r)
+	c11e(c, r)
 }
 
 func c11a(c *Ctx, r *Report) {
@@ -461,5 +462,76 @@ func c11d(c *Ctx, r *Report) {
 		r.Check(!byteIndex, clause, "R1 CHARACTER-CODE", s.fn+"/character-literal-code", c.pos(s.pos),
 			"the code is the literal's character (rune) value: "+s.path,
 			"the code of a character literal is taken as "+s.path+", the first BYTE of its UTF-8 text: a non-ASCII literal such as 'é' is numbered 195 instead of 233, and 'é' and 'è' get the same code (the generated translate switch then has a duplicate case and does not compile)")
+	}
+}
+
+// c11e: an identifier that is first seen in a precedence line is recorded with code 0 (to be numbered
+// automatically); only a character literal carries its own code. Evaluated on the loop body of parsePrecList under
+// "the current token is an identifier" / "… is a character literal".
+func c11e(c *Ctx, r *Report) {
+	const clause = "C11.d"
+	f := c.need(r, clause, "Parser", "parser", "parsePrecList")
+	if f == nil {
+		return
+	}
+	info := f.Pkg.TypesInfo
+	var loop *ast.ForStmt
+	for _, s := range f.Decl.Body.List {
+		if fs, ok := s.(*ast.ForStmt); ok {
+			loop = fs
+		}
+	}
+	if loop == nil {
+		r.Undecided(clause, "R4 DECISION-TABLE", f.Name+"/named-token-code", c.pos(f.Decl.Pos()), "no token loop")
+		return
+	}
+	pe := newPathEnum(info)
+	paths, err := pe.Enumerate(loop.Body.List)
+	if err != nil {
+		r.Undecided(clause, "R4 DECISION-TABLE", f.Name+"/named-token-code", c.pos(loop.Pos()), err.Error())
+		return
+	}
+	bad := ""
+	n := 0
+	for _, kind := range []string{"Identifier", "Charater"} {
+		val := kindValuation(c, kind, nil)
+		for _, p := range selectPaths(paths, val) {
+			var vals []*Term
+			for _, e := range p.Effects {
+				collectFieldOfComposite(e.Term, "Idendity", "Value", &vals)
+			}
+			for _, t := range p.Env {
+				collectFieldOfComposite(t, "Idendity", "Value", &vals)
+			}
+			for _, v := range vals {
+				n++
+				s := v.String()
+				if kind == "Identifier" && s != "0" {
+					bad = "a named token first seen in a precedence line is recorded with code `" + s + "` instead of 0: it keeps a stale value (e.g. the code of the literal before it on the line) and is never numbered automatically, so two tokens can share a code"
+				}
+				if kind == "Charater" && !strings.Contains(s, "rune") && !strings.Contains(s, "Value[") {
+					bad = "a character literal in a precedence line is recorded with code `" + s + "`, not its character code"
+				}
+			}
+		}
+	}
+	r.Check(bad == "" && n >= 2, clause, "R4 DECISION-TABLE", f.Name+"/named-token-code", c.pos(loop.Pos()),
+		"in a precedence line an identifier is recorded with code 0 (numbered later) and a character literal with its character code, decided per iteration", bad)
+}
+
+func collectFieldOfComposite(t *Term, typeSuffix, field string, out *[]*Term) {
+	if t == nil {
+		return
+	}
+	if t.Op == "composite" && strings.HasSuffix(t.Name, typeSuffix) {
+		if v, ok := t.Fields[field]; ok {
+			*out = append(*out, v)
+		}
+	}
+	for _, a := range t.Args {
+		collectFieldOfComposite(a, typeSuffix, field, out)
+	}
+	for _, v := range t.Fields {
+		collectFieldOfComposite(v, typeSuffix, field, out)
 	}
 }
